@@ -6,6 +6,7 @@ import (
 	"bytes"
 	"fmt"
 	"io"
+	"net"
 	"os"
 	"strconv"
 	"strings"
@@ -49,6 +50,7 @@ type c16scn struct {
 	reqs      []c16req
 	d         time.Duration // gate of /s handlers: sleep d; 0 = wait until ctx.timeoutResponse is set
 	ops       string        // late operations of /s and /t handlers
+	pre       string        // early operations of /s (before the gate) and /t (before TimeoutError) handlers: H = ctx.Hijack, N = HijackSetNoResponse(true)+Hijack
 	rop       byte          // what a /r handler does with the *Response after passing it to TimeoutErrorWithResponse
 	serveConn bool          // ServeConn-only server (never passed to Serve)
 	stream    bool          // StreamRequestBody
@@ -65,6 +67,7 @@ type c16obs struct {
 	hret         map[string]bool // handler of path has returned
 	pre          map[string]bool // the wrapper had already timed out when the handler goroutine entered h
 	admitted     int // wrapper calls that were not turned away with 429
+	hijackRan    int // hijack handlers that were started
 	bg           int // goroutines started by /r handlers that are still running
 	hStarted     int
 	running      int
@@ -80,12 +83,22 @@ func (o *c16obs) ev(f string, a ...any) {
 
 const c16msg = "TMO"
 
-func c16late(ctx *RequestCtx, p, ops string) {
+const c16marker = "HIJACK-MARKER"
+
+func c16late(o *c16obs, ctx *RequestCtx, p, ops string) {
 	for i := 0; i < len(ops); i++ {
 		if i > 0 {
 			mcrt.Yield()
 		}
 		switch ops[i] {
+		case 'H', 'N':
+			if ops[i] == 'N' {
+				ctx.HijackSetNoResponse(true)
+			}
+			ctx.Hijack(func(c net.Conn) {
+				o.hijackRan++
+				c.Write([]byte(c16marker + ":" + p)) //nolint:errcheck
+			})
 		case 'A':
 			ctx.Response.Header.Set("X-Late", p)
 			ctx.SetBodyString("late:" + p)
@@ -180,11 +193,13 @@ func c16handler(o *c16obs, sc c16scn) RequestHandler {
 				})
 			}
 		case 't':
+			c16late(o, ctx, p, sc.pre)
 			ctx.TimeoutError("SELF")
 			mcrt.Covered("handler-called-timeouterror-itself")
 			mcrt.Yield()
-			c16late(ctx, p, sc.ops)
+			c16late(o, ctx, p, sc.ops)
 		case 's':
+			c16late(o, ctx, p, sc.pre)
 			if sc.d > 0 {
 				mtime.Sleep(sc.d)
 			} else {
@@ -197,7 +212,7 @@ func c16handler(o *c16obs, sc c16scn) RequestHandler {
 				mcrt.Covered("handler-done-before-timeout")
 			}
 			o.ev("late ops %s start", p)
-			c16late(ctx, p, sc.ops)
+			c16late(o, ctx, p, sc.ops)
 			o.ev("late ops %s end", p)
 		}
 	}
@@ -362,6 +377,11 @@ func c16check(sc c16scn, ref []c16resp) func(x *mcrt.Exec) (string, string, stri
 		if len(o.notes) > 0 {
 			return "note", "handler-sees-foreign-request", o.notes[0]
 		}
+		if hj := strings.ContainsAny(sc.pre+sc.ops, "HN"); hj && (o.hijackRan > 0 || bytes.Contains(o.wire, []byte(c16marker))) {
+			// every /s handler of these scenarios is gated on the timeout and every /t handler calls TimeoutError: none of
+			// their requests may end in a hijack
+			return "hijacked", "timed-out-handler-hijack-takes-effect", fmt.Sprintf("a handler called ctx.Hijack and then timed out / called TimeoutError, yet its hijack handler was started (%d) and got the connection; wire=%q entryRunning=%v events=%v", o.hijackRan, o.wire, o.entryRunning, o.log)
+		}
 		rs, rest := c16split(o.wire, sc.reqs)
 		var cls []string
 		ctxt := func() string { return fmt.Sprintf("wire=%q entryRunning=%v entryOcc=%v events=%v", o.wire, o.entryRunning, o.entryOcc, o.log) }
@@ -485,7 +505,7 @@ func c16check(sc c16scn, ref []c16resp) func(x *mcrt.Exec) (string, string, stri
 func TestVerif_C16(t *testing.T) {
 	r := vrt.Begin(t, "C16", "model_checking")
 	defer r.End()
-	r.Rule("real Server.Serve (InmemoryListener) with Handler = TimeoutWithCodeHandler(h, T, msg, code), Concurrency 1-2, one connection with 2-3 pipelined requests; h blocks on a gate (virtual sleep before/at/after T, or until the timeout response is set) and then keeps mutating ctx (header+body, Write, TimeoutError again, status+close, PostBody/RequestBodyStream reads), or calls TimeoutError itself, or passes an acquired *Response to TimeoutErrorWithResponse and then leaves / releases / defers the release of / resets / overwrites it or keeps writing it from a goroutine that outlives the handler; " +
+	r.Rule("real Server.Serve (InmemoryListener) with Handler = TimeoutWithCodeHandler(h, T, msg, code), Concurrency 1-2, one connection with 2-3 pipelined requests; h blocks on a gate (virtual sleep before/at/after T, or until the timeout response is set) and then keeps mutating ctx (header+body, Write, TimeoutError again, status+close, PostBody/RequestBodyStream reads), or calls ctx.Hijack (with/without HijackSetNoResponse) before timing out / before calling TimeoutError / after the timeout (the hijack handler writes a marker that must never reach the wire), or calls TimeoutError itself, or passes an acquired *Response to TimeoutErrorWithResponse and then leaves / releases / defers the release of / resets / overwrites it or keeps writing it from a goroutine that outlives the handler; " +
 		"all schedules, select choices and timer-first orders up to the deviation bound; oracle per response: must-time-out requests get exactly (code,msg), a response passed to TimeoutErrorWithResponse arrives exactly as it was at the call, /f requests the reference bytes of their own request, 429 only with >= Concurrency running wrapped handlers, no late write anywhere on the wire, running handlers <= Concurrency at every step; non-trivial: executions with >=1 deviation")
 	r.Assume("mcrt shim semantics (litmus-tested)", "sync.Pool modelled as deterministic LIFO", "set-up (Serve start, dial) sequentialised", "plain unsynchronised accesses of the abandoned ctx are C37's subject: late operations are atomic between their Yield points")
 	b := vrt.Pick(r, 1, 2)
@@ -518,6 +538,11 @@ func TestVerif_C16(t *testing.T) {
 		{size: 'M', name: "conc2/T1s/resp-overwritten/r,f", conc: 2, T: sec, code: 408, rop: 'L', reqs: []c16req{G("/r1"), G("/f2")}},
 		{size: 'M', name: "conc2/T1s/resp-written-by-goroutine/r,f", conc: 2, T: sec, code: 408, rop: 'G', reqs: []c16req{G("/r1"), G("/f2")}},
 		{size: 'M', name: "conc1/T1s/resp-released/r,r,f", conc: 1, T: sec, code: 408, rop: 'R', reqs: []c16req{G("/r1"), G("/r2"), G("/f3")}},
+		{size: 'M', name: "conc2/T1s/gate/hijack-then-timeout/ops-A/s,f", conc: 2, T: sec, code: 408, pre: "H", ops: "A", reqs: []c16req{G("/s1"), G("/f2")}},
+		{size: 'M', name: "conc2/T1s/gate/hijack-noresponse-then-timeout/ops-A/s,f", conc: 2, T: sec, code: 408, pre: "N", ops: "A", reqs: []c16req{G("/s1"), G("/f2")}},
+		{size: 'M', name: "conc2/T1s/self/hijack-then-timeouterror/t,f", conc: 2, T: sec, code: 408, pre: "H", reqs: []c16req{G("/t1"), G("/f2")}},
+		{size: 'M', name: "conc2/T1s/self/hijack-noresponse-then-timeouterror/t,f", conc: 2, T: sec, code: 408, pre: "N", reqs: []c16req{G("/t1"), G("/f2")}},
+		{size: 'M', name: "conc2/T1s/gate/late-hijack/ops-HA/s,f", conc: 2, T: sec, code: 408, ops: "HA", reqs: []c16req{G("/s1"), G("/f2")}},
 		{name: "conc1/T1s/f,f", conc: 1, T: sec, code: 408, reqs: []c16req{G("/f1"), G("/f2")}},
 		{name: "serveconn-only/T1s/f,f", conc: 2, T: sec, code: 408, serveConn: true, reqs: []c16req{G("/f1"), G("/f2")}},
 	}
